@@ -4,6 +4,8 @@ import (
 	"context"
 	"fmt"
 	"sync"
+	"sync/atomic"
+	"time"
 	"testing"
 
 	eth2v1 "github.com/attestantio/go-eth2-client/api/v1"
@@ -170,8 +172,33 @@ func TestC20Threads(t *testing.T) {
 				}
 			}()
 		}
+		var beats int64
+		hbStop := make(chan struct{})
+		go func() {
+			tk := time.NewTicker(10 * time.Millisecond)
+			defer tk.Stop()
+			for {
+				select {
+				case <-tk.C:
+					atomic.AddInt64(&beats, 1)
+				case <-hbStop:
+					return
+				}
+			}
+		}()
 		close(start)
-		wg.Wait()
+		fin := make(chan struct{})
+		go func() { wg.Wait(); close(fin) }()
+		select {
+		case <-fin:
+			close(hbStop)
+		case <-time.After(20 * time.Second):
+			close(hbStop)
+			if atomic.LoadInt64(&beats) < 700 {
+				panic("HARNESS-ERROR: cache requests still running after 20 s of wall clock and the machine is starved")
+			}
+			rt.Fatalf("CACHE HANGS: concurrent duty requests did not return within 20 s although the machine was responsive (%d goroutines)", g)
+		}
 		close(errs)
 		for e := range errs {
 			rt.Fatalf("%s", e)
